@@ -224,17 +224,19 @@ def op_line(p, mode, reprs, fuel=4000):
         len(e["kwargs"]), "".join(" %s %s" % (name_tok(k), const_text(v)) for k, v in e["kwargs"]))
 
 
-def canon_pyval_tokens(toks, i):
+def canon_pyval_tokens(toks, i, stable=False):
     """PYVAL tokens (model output) -> canonical text, position after"""
     t = toks[i]
     if t == "V":
         v, j = valtext._from(toks, i + 1)
+        if stable and type(v) is str:
+            v = stable_text(v)
         return "V " + valtext.canon(v), j
     if t == "<":
         out = []
         i += 1
         while toks[i] != ">":
-            s, i = canon_pyval_tokens(toks, i)
+            s, i = canon_pyval_tokens(toks, i, False)
             out.append(s)
         return "< " + "".join(x + " " for x in out) + ">", i + 1
     if t[0] == "R":
@@ -252,7 +254,7 @@ def canon_model_outcome(text):
         n = int(toks[2])
         i, out = 3, []
         for _ in range(n):
-            s, i = canon_pyval_tokens(toks, i)
+            s, i = canon_pyval_tokens(toks, i, True)
             out.append(s)
         return "exc %s %d%s" % (name_from_tok(toks[1]), n, "".join(" " + x for x in out))
     return text
@@ -441,12 +443,19 @@ class World(object):
         return f(*args, **kwargs)
 
 
+def stable_text(s):
+    """the text of a hash container lists its members in an order that depends on the table's history; a frozenset
+    that crossed the connection is an equal copy, not the same table.  Texts that may contain such a listing are
+    compared as multisets of characters (applied alike to the distributed run, the one-process run and the model)."""
+    return "".join(sorted(s)) if ("{" in s or "frozenset(" in s) else s
+
+
 def norm_arg(a):
     from rpyc.core import brine
     if brine.dumpable(a):
-        return a
+        return stable_text(a) if type(a) is str else a
     try:
-        return repr(a)
+        return stable_text(repr(a))
     except Exception:  # noqa  (an int beyond the str() digit limit inside it: outside brine's domain)
         return "<repr failed>"
 
